@@ -5,5 +5,5 @@ cd /verif
 run_one() { p=$1; s=$2; t=$3; start=$(date +%s); out=$(VERIF_SEED=$s ./check $p $t 2>/dev/null | grep -E "VIOLATION|KNOWN|^  C[0-9]|^  unpr" | head -5); rc=${PIPESTATUS[0]}; echo "$p seed=$s rc=$rc $(( $(date +%s)-start ))s ${out:0:300}"; }
 export -f run_one
 for s in $seeds; do
-  if [ -n "${PROPS:-}" ]; then echo $PROPS | tr " " "\n"; else python3 -c "import json; print('\n'.join(c['property_id'] for c in json.load(open('MANIFEST.json'))["checks"]))"; fi | xargs -P $par -I{} bash -c "run_one {} $s $tier"
+  if [ -n "${PROPS:-}" ]; then echo $PROPS | tr " " "\n"; else python3 -c "import json; print('\n'.join(c['property_id'] for c in json.load(open('MANIFEST.json'))['checks']))"; fi | xargs -P $par -I{} bash -c "run_one {} $s $tier"
 done
